@@ -525,9 +525,10 @@ class PmapTimeout(Exception):
 class PmapResourceError(Exception):
     """A worker exceeded its memory limit while running the implementation on a generated case."""
 
-    def __init__(self, failures):
-        super().__init__(f"{len(failures)} case(s) exceeded the per-worker memory limit: {failures[:2]}")
+    def __init__(self, failures, kind="memory"):
+        super().__init__(f"{len(failures)} case(s): {kind}: {failures[:2]}")
         self.failures = failures
+        self.kind = kind
 
 
 class _PmapFailure:
@@ -577,23 +578,31 @@ def pmap(fn, items, nproc=None, timeout=None):
     timeout = timeout or float(os.environ.get("VERIF_PMAP_TIMEOUT", "2400"))
     if nproc <= 1 or len(items) < 4:
         return [fn(x) for x in items]
+    import concurrent.futures as cf
+    from concurrent.futures.process import BrokenProcessPool
+
     ctx = mp.get_context("fork")
-    pool = ctx.Pool(nproc, initializer=_limit_worker_memory)
+    ex = cf.ProcessPoolExecutor(max_workers=nproc, mp_context=ctx, initializer=_limit_worker_memory)
     try:
-        res = pool.map_async(_Guarded(fn), items, chunksize=max(1, len(items) // (nproc * 4)))
         try:
-            out = res.get(timeout)
-        except mp.TimeoutError:
-            pool.terminate()
+            out = list(ex.map(_Guarded(fn), items, chunksize=max(1, len(items) // (nproc * 4)), timeout=timeout))
+        except cf.TimeoutError:
             raise PmapTimeout(f"parallel map of {len(items)} cases did not finish within {timeout:.0f} s")
-        pool.close()
+        except BrokenProcessPool:
+            # a worker process disappeared (the native code called exit()/abort(), or crashed) while running generated cases
+            raise PmapResourceError([f"a worker process died while running {getattr(fn, '__name__', 'cases')} on {len(items)} generated cases "
+                                     f"(first case {repr(items[0])[:80]})"], kind="died")
         bad = [o for o in out if isinstance(o, _PmapFailure)]
         if bad:
             raise PmapResourceError([b.item for b in bad])
         return out
     finally:
-        pool.terminate()
-        pool.join()
+        for p_ in list(getattr(ex, "_processes", {}).values()):
+            try:
+                p_.terminate()
+            except Exception:
+                pass
+        ex.shutdown(wait=False, cancel_futures=True)
 
 
 def case_rng(pid, seed, icase):
@@ -655,8 +664,12 @@ def main_wrapper(fn):
             traceback.print_exc()
             sys.exit(2)
         for it in e.failures[:5]:
-            ck.fail("resource", f"the implementation exceeded the per-worker memory limit ({os.environ.get('VERIF_WORKER_MEM_GB', '8')} GB) "
-                                f"on generated case {it} (cases are a few kB)", dict(case=it), "memory_blowup")
+            if e.kind == "died":
+                ck.fail("resource", f"the interpreter running the implementation was killed from inside (exit()/abort()/crash in native code): {it}",
+                        dict(case=it), "native_process_death")
+            else:
+                ck.fail("resource", f"the implementation exceeded the per-worker memory limit ({os.environ.get('VERIF_WORKER_MEM_GB', '8')} GB) "
+                                    f"on generated case {it} (cases are a few kB)", dict(case=it), "memory_blowup")
         rc = ck.finish()
     except Exception:
         traceback.print_exc()
